@@ -41,6 +41,7 @@ type side struct {
 	cm    [maxMods]wazero.CompiledModule
 	ids   [maxMods]wasm.ModuleID // identity of instance i for the heap walk (survives drop; names may be empty)
 	hasID [maxMods]bool
+	bins  [maxMods][]byte // the binary instance i was compiled from
 }
 
 const maxMods = 4
@@ -155,7 +156,8 @@ func (s *side) apply(op string, twin bool) (out string) {
 		if s.inst[i] != nil || s.cm[i] != nil {
 			return "dup"
 		}
-		cm, err := s.rt.CompileModule(ctx, guestModule(sh))
+		s.bins[i] = guestModule(sh)
+		cm, err := s.rt.CompileModule(ctx, s.bins[i])
 		if err != nil {
 			return "ierr"
 		}
@@ -266,6 +268,18 @@ func (s *side) apply(op string, twin bool) (out string) {
 		m, err := s.rt.InstantiateWithConfig(ctx, emptyModule, wazero.NewModuleConfig().WithName(modName(atoi(f[1]))))
 		if err == nil {
 			m.Close(ctx)
+		}
+		return "ok"
+	case "dupcm":
+		// the binary of instance i is compiled a SECOND time (an embedder inspecting imports / exports, another component
+		// that holds the same bytes) and that handle is closed without ever being instantiated: nothing may change for
+		// the instance made from the first handle, nor for anybody who calls into it
+		if s.rt == nil || s.bins[atoi(f[1])] == nil {
+			return "ok"
+		}
+		if cm2, err := s.rt.CompileModule(ctx, s.bins[atoi(f[1])]); err == nil {
+			cm2.ExportedFunctions()
+			cm2.Close(ctx)
 		}
 		return "ok"
 	case "droprt":
